@@ -108,48 +108,64 @@ theorem aos_readNewBytes_neg (n : Int) (hn : n ≤ 0) : AllOrShort (readNewBytes
   intro rest remain
   exact ⟨fun _ => by simp [readNewBytes, hn], fun h => by simp at h⟩
 
-/-- message_reader.go runFunc on a nullable byte string of the record format -/
-theorem aos_runFunc (ob : Option Bytes) : AllOrShort runFunc (varbytes ob) (ob.getD []) := by
-  cases ob with
-  | none =>
-    have := aos_bind (q := fun length => readNewBytes length) (aos_readVarInt (-1)) (aos_readNewBytes_neg (-1) (by omega))
-    exact aos_congr this (by simp [varbytes])
-  | some b =>
-    exact aos_bind (q := fun length => readNewBytes length) (aos_readVarInt (b.length : Int)) (aos_readNewBytes b)
+/-- batch.go readMessageBytes after a length `n`: null for a negative one, else that many bytes -/
+theorem aos_readMessageBytes_some (b : Bytes) : AllOrShort (readMessageBytes (b.length : Int)) b (some b) := by
+  have h : AllOrShort (M.bind (readNewBytes (b.length : Int)) fun x => M.pure (if ((b.length : Int)) < 0 then none else some x))
+      (b ++ []) (some b) := by
+    have hn : ¬ ((b.length : Int) < 0) := by omega
+    have := aos_bind (q := fun x => M.pure (if ((b.length : Int)) < 0 then none else some x)) (aos_readNewBytes b)
+      (by simpa [hn] using aos_pure (some b))
+    exact this
+  exact aos_congr h (by simp)
 
-/-- a varint length followed by that many bytes (−1: none) -/
-theorem aos_lenBytes {β : Type} (ob : Option Bytes) (f : Bytes → β) :
-    AllOrShort (M.bind readVarInt fun n => M.bind (readNewBytes n) fun v => M.pure (f v)) (varbytes ob) (f (ob.getD [])) := by
+theorem aos_readMessageBytes_none (n : Int) (hn : n < 0) : AllOrShort (readMessageBytes n) [] none := by
+  have h : AllOrShort (M.bind (readNewBytes n) fun x => M.pure (if n < 0 then none else some x)) ([] ++ []) none :=
+    aos_bind (q := fun x => M.pure (if n < 0 then none else some x)) (aos_readNewBytes_neg n (by omega))
+      (by simpa [hn] using aos_pure (none : Option Bytes))
+  exact aos_congr h (by simp)
+
+/-- message_reader.go runFunc on a nullable byte string of the record format: null stays null, empty stays empty -/
+theorem aos_runFunc (ob : Option Bytes) : AllOrShort runFunc (varbytes ob) ob := by
   cases ob with
   | none =>
-    have h2 : AllOrShort (M.bind (readNewBytes (-1)) fun v => M.pure (f v)) ([] ++ []) (f []) :=
-      aos_bind (aos_readNewBytes_neg (-1) (by omega)) (aos_pure _)
-    have := aos_bind (q := fun n => M.bind (readNewBytes n) fun v => M.pure (f v)) (aos_readVarInt (-1)) h2
+    have := aos_bind (q := fun length => readMessageBytes length) (aos_readVarInt (-1)) (aos_readMessageBytes_none (-1) (by omega))
     exact aos_congr this (by simp [varbytes])
   | some b =>
-    have h2 : AllOrShort (M.bind (readNewBytes (b.length : Int)) fun v => M.pure (f v)) (b ++ []) (f b) :=
-      aos_bind (aos_readNewBytes b) (aos_pure _)
-    have := aos_bind (q := fun n => M.bind (readNewBytes n) fun v => M.pure (f v)) (aos_readVarInt (b.length : Int)) h2
+    exact aos_bind (q := fun length => readMessageBytes length) (aos_readVarInt (b.length : Int)) (aos_readMessageBytes_some b)
+
+/-- a varint length followed by that many bytes (−1: null) -/
+theorem aos_lenBytes {β : Type} (ob : Option Bytes) (f : Option Bytes → β) :
+    AllOrShort (M.bind readVarInt fun n => M.bind (readMessageBytes n) fun v => M.pure (f v)) (varbytes ob) (f ob) := by
+  cases ob with
+  | none =>
+    have h2 : AllOrShort (M.bind (readMessageBytes (-1)) fun v => M.pure (f v)) ([] ++ []) (f none) :=
+      aos_bind (aos_readMessageBytes_none (-1) (by omega)) (aos_pure _)
+    have := aos_bind (q := fun n => M.bind (readMessageBytes n) fun v => M.pure (f v)) (aos_readVarInt (-1)) h2
+    exact aos_congr this (by simp [varbytes])
+  | some b =>
+    have h2 : AllOrShort (M.bind (readMessageBytes (b.length : Int)) fun v => M.pure (f v)) (b ++ []) (f (some b)) :=
+      aos_bind (aos_readMessageBytes_some b) (aos_pure _)
+    have := aos_bind (q := fun n => M.bind (readMessageBytes n) fun v => M.pure (f v)) (aos_readVarInt (b.length : Int)) h2
     exact aos_congr this (by simp [varbytes])
 
 /-- message_reader.go readMessageHeader on a record header -/
-theorem aos_readMessageHeader (h : Hdr) : AllOrShort readMessageHeader (encHdr h) (h.key, h.value.getD []) := by
+theorem aos_readMessageHeader (h : Hdr) : AllOrShort readMessageHeader (encHdr h) (h.key, h.value) := by
   have h3 := aos_lenBytes h.value (fun v => (h.key, v))
-  have h2 := aos_bind (q := fun k => M.bind readVarInt fun n => M.bind (readNewBytes n) fun v => M.pure (k, v))
+  have h2 := aos_bind (q := fun k => M.bind readVarInt fun n => M.bind (readMessageBytes n) fun v => M.pure (k, v))
     (aos_readNewBytes h.key) h3
   have h1 := aos_bind (q := fun keyLen => M.bind (readNewBytes keyLen) fun k =>
-      M.bind readVarInt fun n => M.bind (readNewBytes n) fun v => M.pure (k, v))
+      M.bind readVarInt fun n => M.bind (readMessageBytes n) fun v => M.pure (k, v))
     (aos_readVarInt (h.key.length : Int)) h2
   exact aos_congr h1 (by simp [encHdr])
 
 theorem aos_readMessageHeaders : ∀ (hs : List Hdr),
-    AllOrShort (readMessageHeaders hs.length) (encHdrs hs) (hs.map fun h => (h.key, h.value.getD [])) := by
+    AllOrShort (readMessageHeaders hs.length) (encHdrs hs) (hs.map fun h => (h.key, h.value)) := by
   intro hs
   induction hs with
   | nil => exact aos_pure _
   | cons h hs ih =>
-    have h2 : AllOrShort (M.bind (readMessageHeaders hs.length) fun t => M.pure ((h.key, h.value.getD []) :: t))
-        (encHdrs hs ++ []) ((h.key, h.value.getD []) :: hs.map fun h => (h.key, h.value.getD [])) := aos_bind ih (aos_pure _)
+    have h2 : AllOrShort (M.bind (readMessageHeaders hs.length) fun t => M.pure ((h.key, h.value) :: t))
+        (encHdrs hs ++ []) ((h.key, h.value) :: hs.map fun h => (h.key, h.value)) := aos_bind ih (aos_pure _)
     have h1 := aos_bind (q := fun x => M.bind (readMessageHeaders hs.length) fun t => M.pure (x :: t)) (aos_readMessageHeader h) h2
     exact aos_congr h1 (by simp [encHdrs])
 
@@ -160,14 +176,14 @@ open KV KV.RW KV.Spec.RB
 
 /-- what the Go code takes from a record of the format -/
 def viewOf (rec : RecV2) : RecView :=
-  { offDelta := rec.offDelta, tsDelta := rec.tsDelta, key := rec.key.getD [], value := rec.value.getD [],
-    headers := rec.headers.map fun h => (h.key, h.value.getD []), consumed := ((encRec rec).length : Int) }
+  { offDelta := rec.offDelta, tsDelta := rec.tsDelta, key := rec.key, value := rec.value,
+    headers := rec.headers.map fun h => (h.key, h.value), consumed := ((encRec rec).length : Int) }
 
 theorem aos_headersBranch (hs : List Hdr) :
     AllOrShort (if ((hs.length : Int)) > 0 then readMessageHeaders ((hs.length : Int)).toNat else M.pure [])
-      (encHdrs hs) (hs.map fun h => (h.key, h.value.getD [])) := by
+      (encHdrs hs) (hs.map fun h => (h.key, h.value)) := by
   cases hs with
-  | nil => simpa [encHdrs] using aos_pure ([] : List (Bytes × Bytes))
+  | nil => simpa [encHdrs] using aos_pure ([] : List (Bytes × Option Bytes))
   | cons h t =>
     have hpos : ((List.length (h :: t) : Nat) : Int) > 0 := by simp only [List.length_cons]; omega
     simp only [hpos, if_true, Int.toNat_natCast]
@@ -176,17 +192,17 @@ theorem aos_headersBranch (hs : List Hdr) :
 theorem aos_recTail (rec : RecV2) (len lol : Int) :
     AllOrShort (recTail len lol) (recBody rec) { viewOf rec with consumed := len + lol } := by
   have h7 : AllOrShort (M.bind (if ((rec.headers.length : Int)) > 0 then readMessageHeaders ((rec.headers.length : Int)).toNat else M.pure [])
-      fun headers => M.pure ({ offDelta := rec.offDelta, tsDelta := rec.tsDelta, key := rec.key.getD [], value := rec.value.getD [],
+      fun headers => M.pure ({ offDelta := rec.offDelta, tsDelta := rec.tsDelta, key := rec.key, value := rec.value,
                                headers := headers, consumed := len + lol } : RecView))
       (encHdrs rec.headers ++ []) { viewOf rec with consumed := len + lol } :=
     aos_bind (aos_headersBranch rec.headers) (aos_pure _)
   have h6 := aos_bind (q := fun headerCount => M.bind (if headerCount > 0 then readMessageHeaders headerCount.toNat else M.pure [])
-      fun headers => M.pure ({ offDelta := rec.offDelta, tsDelta := rec.tsDelta, key := rec.key.getD [], value := rec.value.getD [],
+      fun headers => M.pure ({ offDelta := rec.offDelta, tsDelta := rec.tsDelta, key := rec.key, value := rec.value,
                                headers := headers, consumed := len + lol } : RecView))
     (aos_readVarInt (rec.headers.length : Int)) h7
   have h5 := aos_bind (q := fun val => M.bind readVarInt fun headerCount =>
       M.bind (if headerCount > 0 then readMessageHeaders headerCount.toNat else M.pure [])
-      fun headers => M.pure ({ offDelta := rec.offDelta, tsDelta := rec.tsDelta, key := rec.key.getD [], value := val,
+      fun headers => M.pure ({ offDelta := rec.offDelta, tsDelta := rec.tsDelta, key := rec.key, value := val,
                                headers := headers, consumed := len + lol } : RecView))
     (aos_runFunc rec.value) h6
   have h4 := aos_bind (q := fun key => M.bind runFunc fun val => M.bind readVarInt fun headerCount =>
@@ -265,20 +281,21 @@ theorem aos_readInt32 (x : Int) (h : InRange M32 x) : AllOrShort readInt32 (i32 
     exact ⟨_, by simp only [readInt32, readInt]; rw [if_pos (by omega)]⟩
 
 /-- a 4-byte length followed by that many bytes (−1: null) -/
-theorem aos_readBytes32 (ob : Option Bytes) (h : InRange M32 (optLen ob : Int)) : AllOrShort readBytes32 (nbytes ob) (ob.getD []) := by
+theorem aos_readBytes32 (ob : Option Bytes) (h : InRange M32 (optLen ob : Int)) : AllOrShort readBytes32 (nbytes ob) ob := by
   cases ob with
   | none =>
-    have h2 : AllOrShort (fun r => if (-1 : Int) > (r.remain : Int) then .error (.short, r) else readNewBytes (-1) r : M Bytes) [] [] := by
+    have h2 : AllOrShort (fun r => if (-1 : Int) > (r.remain : Int) then .error (.short, r) else readMessageBytes (-1) r : M (Option Bytes)) [] none := by
       intro rest remain
-      refine ⟨fun _ => ?_, fun hlt => by simp at hlt⟩
+      refine ⟨fun hle => ?_, fun hlt => by simp at hlt⟩
       have : ¬ ((-1 : Int) > (remain : Int)) := by omega
-      simp [this, readNewBytes]
-    have := aos_bind (q := fun n => (fun r => if n > (r.remain : Int) then .error (.short, r) else readNewBytes n r : M Bytes))
+      simp only [this, if_false]
+      exact (aos_readMessageBytes_none (-1) (by omega) rest remain).1 hle
+    have := aos_bind (q := fun n => (fun r => if n > (r.remain : Int) then .error (.short, r) else readMessageBytes n r : M (Option Bytes)))
       (aos_readInt32 (-1) (by decide)) h2
     exact aos_congr this (by simp [nbytes])
   | some b =>
-    have hb := aos_readNewBytes b
-    have h2 : AllOrShort (fun r => if ((b.length : Int)) > (r.remain : Int) then .error (.short, r) else readNewBytes (b.length : Int) r : M Bytes) b b := by
+    have hb := aos_readMessageBytes_some b
+    have h2 : AllOrShort (fun r => if ((b.length : Int)) > (r.remain : Int) then .error (.short, r) else readMessageBytes (b.length : Int) r : M (Option Bytes)) b (some b) := by
       intro rest remain
       constructor
       · intro hle
@@ -288,7 +305,7 @@ theorem aos_readBytes32 (ob : Option Bytes) (h : InRange M32 (optLen ob : Int)) 
       · intro hlt
         have : ((b.length : Int) > (remain : Int)) := by omega
         exact ⟨⟨b ++ rest, remain⟩, by simp only [this, if_true]⟩
-    have := aos_bind (q := fun n => (fun r => if n > (r.remain : Int) then .error (.short, r) else readNewBytes n r : M Bytes))
+    have := aos_bind (q := fun n => (fun r => if n > (r.remain : Int) then .error (.short, r) else readMessageBytes n r : M (Option Bytes)))
       (aos_readInt32 (b.length : Int) (by simpa [optLen] using h)) h2
     exact aos_congr this (by simp [nbytes])
 
@@ -335,8 +352,8 @@ theorem aos_discardBytes32 (ob : Option Bytes) (h : InRange M32 (optLen ob : Int
 
 /-- key and value of a v0/v1 message, read … -/
 theorem readBodyV1_spec (m : Msg) (hk : InRange M32 (optLen m.key : Int)) (hv : InRange M32 (optLen m.value : Int)) :
-    AllOrShort readBodyV1 (nbytes m.key ++ nbytes m.value) (m.key.getD [], m.value.getD []) := by
-  have h2 : AllOrShort (M.bind readBytes32 fun v => M.pure (m.key.getD [], v)) (nbytes m.value ++ []) (m.key.getD [], m.value.getD []) :=
+    AllOrShort readBodyV1 (nbytes m.key ++ nbytes m.value) (m.key, m.value) := by
+  have h2 : AllOrShort (M.bind readBytes32 fun v => M.pure (m.key, v)) (nbytes m.value ++ []) (m.key, m.value) :=
     aos_bind (aos_readBytes32 m.value hv) (aos_pure _)
   have h1 := aos_bind (q := fun k => M.bind readBytes32 fun v => M.pure (k, v)) (aos_readBytes32 m.key hk) h2
   exact aos_congr h1 (by simp)
